@@ -98,7 +98,9 @@ RECURSIVE LoadAll(_, _, _)
 LoadAll(ms, files, i) ==
     IF i > Len(Files) THEN ms
     ELSE LET f == Files[i] IN
-         IF ms.ts[f] >= 0 /\ files[f].present /\ files[f].mtime > ms.ts[f]
+         \* any change of the modification time is a change of the file: a repair that restores a backup brings an OLDER
+         \* time back (0 = never looked at; real modification times are >= 1)
+         IF ms.ts[f] >= 0 /\ files[f].present /\ files[f].mtime # ms.ts[f]
          THEN LoadAll(LoadFile(ms, f, files[f]), files, i + 1)
          ELSE LoadAll(ms, files, i + 1)
 
@@ -127,7 +129,7 @@ GhostScan(gs, ms, files, i) ==     \* ms: monitor state BEFORE the scan (for the
          THEN GhostScan([gs EXCEPT !.has = @ \ {f}, !.loaded[f] = [n \in AllNames |-> "none"]], ms, files, i + 1)
          ELSE LET known == f \in ms.pfiles
                   t == IF known THEN ms.ts[f] ELSE 0 IN
-              IF files[f].mtime > t /\ files[f].valid
+              IF files[f].mtime # t /\ files[f].valid
               THEN GhostScan([gs EXCEPT !.has = @ \cup {f}, !.loaded[f] = files[f].content,
                                         !.lseq[f] = gs.n + 1, !.n = gs.n + 1], ms, files, i + 1)
               ELSE GhostScan(gs, ms, files, i + 1)
